@@ -1730,31 +1730,26 @@ class sptensor:
         if self.nnz == 0:
             return self.copy()
 
+        newvals = None
         if isinstance(factor, ttb.tensor):
             shapeArray = np.array(self.shape)
             if not np.array_equal(factor.shape, shapeArray[dims]):
                 assert False, "Size mismatch in scale"
-            return ttb.sptensor(
-                self.subs,
-                self.vals * np.atleast_1d(factor[self.subs[:, dims]])[:, None],
-                self.shape,
-            )
-        if isinstance(factor, ttb.sptensor):
+            newvals = self.vals * np.atleast_1d(factor[self.subs[:, dims]])[:, None]
+        elif isinstance(factor, ttb.sptensor):
             shapeArray = np.array(self.shape)
             if not np.array_equal(factor.shape, shapeArray[dims]):
                 assert False, "Size mismatch in scale"
-            return ttb.sptensor(
-                self.subs, self.vals * factor[self.subs[:, dims]], self.shape
-            )
-        if isinstance(factor, np.ndarray):
+            newvals = self.vals * factor[self.subs[:, dims]]
+        elif isinstance(factor, np.ndarray):
             shapeArray = np.array(self.shape)
             if factor.shape[0] != shapeArray[dims]:
                 assert False, "Size mismatch in scale"
-            return ttb.sptensor(
-                self.subs,
-                self.vals * factor[self.subs[:, dims].transpose()[0]][:, None],
-                self.shape,
-            )
+            newvals = self.vals * factor[self.subs[:, dims].transpose()[0]][:, None]
+        if newvals is not None:
+            # a zero scaling factor annihilates stored entries: do not keep explicit zeros
+            keep = newvals[:, 0] != 0
+            return ttb.sptensor(self.subs[keep], newvals[keep], self.shape)
         assert False, "Invalid scaling factor"
 
     def spmatrix(self) -> sparse.coo_matrix:
